@@ -1,5 +1,5 @@
 SPECIFICATION MCSpec
-CONSTANTS MaxIn = 1  MaxOps = 4  MidRunChunks = TRUE  Bugs = {"no_state_reset_after_uncompressed"}
+CONSTANTS MaxIn = 1  MaxOps = 4  MidRunChunks = TRUE  TinyInput = TRUE  Bugs = {"no_state_reset_after_uncompressed"}
  Encs = {"stream", "mt", "raw", "block"}  Grants = {"big"}  Checks = {"crc"}  BSizes = {0}
 VIEW MCView
 INVARIANTS TypeOK NotBad DecodableLeGiven NoEmptyBlock SeqAgrees
